@@ -93,11 +93,12 @@ class Big:
     bv (optional, //verif:opt big_bv=1): a SIGNED two's-complement bit-vector term of any width with
     v == BV2Int(bv, signed) - machine-word and byte-string derived values keep it, so that
     Uint64/BitLen/And/... stay inside bit-vector reasoning."""
-    __slots__ = ('v', 'bv')
+    __slots__ = ('v', 'bv', 'nn')
 
-    def __init__(self, v, bv=None):
+    def __init__(self, v, bv=None, nn=False):
         self.v = v
         self.bv = bv
+        self.nn = nn        # bv is known to be non-negative (its top bit is zero)
 
     def __repr__(self):
         return 'Big(%r)' % (self.v,)
